@@ -200,8 +200,9 @@ def classify(arm):
         return 'exception(%s)' % S.show(ce.args[2]).split('::')[-1]
     if not [n for n in names if n not in ()] and not rets and not [e for e in arm.events if e.kind in ('assign',)]:
         return 'ignore'
-    if rets and all(S.show(r.term).startswith('errors::') for r in rets) and len(names) <= 2 and all(n in ('fail', 'build') for n in names):
-        return 'error(%s)' % S.show(rets[0].term).split('Snafu')[0].split('::')[-1]
+    if rets and all(S.show(r.term).startswith(('errors::', 'Err(errors::Error::')) for r in rets) and len(names) <= 2 and all(n in ('fail', 'build') for n in names):
+        m_ = re.match(r'^Err\(errors::Error::(\w+)', S.show(rets[0].term))
+        return 'error(%s)' % (m_.group(1) if m_ else S.show(rets[0].term).split('Snafu')[0].split('::')[-1])
     assigns = [S.show(e.term).split('::')[-1].split('(')[0] for e in arm.events if e.kind == 'assign' and S.show(e.lhs) == 'self']
     if assigns:
         return 'state(%s)' % ','.join(assigns)
